@@ -121,7 +121,7 @@ NilStr == ""
 NilSeq == << >>
 
 (* Variant tables. *)
-Hosts    == <<"Example.COM", "example.com:8080", "[FE80::1]", "[::1]:443", "">>   \* "": URI without host (http:///p)
+Hosts    == <<"Example.COM", "example.com:8080", "[FE80::Ab]", "[2001:DB8::Ab]:8443", "">>   \* v6: hex LETTERS after the first colon;   \* "": URI without host (http:///p)
 Schemes  == <<"", "HTTPS", "aZ-0.z+9">>      \* default | upper case | every boundary character of the scheme grammar
 ParseHost == "Other.Host:81"                 \* Host argument of URI.Parse when the full URI is parsed like an absolute-form target
 Expiries == <<"none", "delete", "future">>   \* zero time | CookieExpireDelete | 2033-05-18T03:33:20.999+01:00
@@ -161,6 +161,9 @@ VarOf(mode, w, c) == (HashSeq(HashSeq(7, w), c) % NV(mode)) + 1
 Aux(in) == HashSeq(HashSeq(HashSeq(11, in.w), in.c), <<in.v>>)
 ApiOf(in) == Aux(in) % 2
 PmOf(in)  == (Aux(in) \div 2) % 2
+\*   ord 0: SetSecure before SetSameSite/SetPartitioned (None / Partitioned then force Secure on)
+\*   ord 1: SetSecure last (the caller has the last word: SameSite=None / Partitioned WITHOUT Secure is written and parsed)
+OrdOf(in) == (Aux(in) \div 4) % 2
 
 Cut(in, j)   == IF j = 0 THEN 0 ELSE IF j > Len(in.c) THEN Len(in.w) ELSE in.c[j]
 Field(in, j) == SubSeq(in.w, Cut(in, j - 1) + 1, Cut(in, j))
@@ -282,7 +285,7 @@ AcceptCookie(b, in, o) ==
     LET var == CookieVar(in.v) IN
     /\ o.set = [key |-> R(b, in, 1), value |-> R(b, in, 2), httpOnly |-> var.httpOnly, secure |-> var.secure,
                 partitioned |-> var.partitioned, sameSite |-> var.sameSite, exp |-> var.exp, maxAge |-> var.maxAge,
-                domain |-> Lit(var.domain), path |-> Lit(var.path), api |-> ApiOf(in)]
+                domain |-> Lit(var.domain), path |-> Lit(var.path), api |-> ApiOf(in), ord |-> OrdOf(in)]
     /\ CookiePre(in) => LawCookie(o)
 
 Accept(b, in, o) == /\ o.ev = EvOf(b.mode)
@@ -376,13 +379,13 @@ RefCookieObs(b, in) ==
     LET var == CookieVar(in.v)
         rec == [key |-> R(b, in, 1), value |-> R(b, in, 2), domain |-> Lit(var.domain),
                 path |-> IF var.path = "<unset>" THEN Nil ELSE Lit(var.path),
-                httpOnly |-> var.httpOnly, secure |-> var.secure \/ var.partitioned \/ var.sameSite = 4,
+                httpOnly |-> var.httpOnly, secure |-> var.secure \/ (OrdOf(in) = 0 /\ (var.partitioned \/ var.sameSite = 4)),
                 partitioned |-> var.partitioned, sameSite |-> var.sameSite, maxAge |-> var.maxAge,
                 expSet |-> var.exp # "none", exp |-> IF var.exp = "none" THEN 0 ELSE IF var.exp = "delete" THEN 1257894000 ELSE 2000000000]
     IN  [ev |-> "Cookie", ok |-> TRUE, str |-> Nil, rec |-> rec, parsed |-> rec,
          set |-> [key |-> R(b, in, 1), value |-> R(b, in, 2), httpOnly |-> var.httpOnly, secure |-> var.secure,
                   partitioned |-> var.partitioned, sameSite |-> var.sameSite, exp |-> var.exp, maxAge |-> var.maxAge,
-                  domain |-> Lit(var.domain), path |-> Lit(var.path), api |-> ApiOf(in)]]
+                  domain |-> Lit(var.domain), path |-> Lit(var.path), api |-> ApiOf(in), ord |-> OrdOf(in)]]
 
 RefObs(b, in) == CASE b.mode = "uri" -> RefUriObs(b, in) [] b.mode = "cookie" -> RefCookieObs(b, in) [] OTHER -> RefArgsObs(b, in)
 
